@@ -399,7 +399,7 @@ def doc_scalars(c):
     return {(t, v) for t, v in out if t not in (TAG + 'str', TAG + 'null')}
 
 
-def case_term(c):
+def case_term(c, with_calls=True):
     """Coq loadcase term, or None when the model does not apply (text PyYAML cannot parse)."""
     if c.doc_err is not None:
         return None
@@ -419,6 +419,8 @@ def case_term(c):
     try:
         calls = '(Some [' + '; '.join(call_term(e) for e in c.log if e[0] in ('init', 'strctor')) + '])'
     except TypeError:
+        calls = 'None'
+    if not with_calls:
         calls = 'None'
     return ('{| lc_oracle := ' + encode.oracle_term(doc_scalars(c)) + '; lc_specs := ' + m.reg_term()
             + '; lc_type := ' + m.ty_term(c.tyspec) + '; lc_doc := ' + doc + '; lc_expect := ' + exp
